@@ -153,6 +153,7 @@ RuleVal(r, args, inst, oname, ci, couts, fc) ==
       [] r.k = "fastruct" -> VArr(<<VObj(("f" :> VFile(inst, oname \o "_0", fc)) @@ ("n" :> VInt(1))),
                                     VObj(("f" :> VFile(inst, oname \o "_1", fc)) @@ ("n" :> VInt(2)))>>)
       [] r.k = "files11" -> VArr([i \in 1..11 |-> VFile(inst, oname \o "_" \o ToString(i - 1), fc)])
+      [] r.k = "fshards" -> VArr(<<VFile(inst, oname \o "_0.shd", fc), VFile(inst, oname \o "_2.shd", fc)>>)   \* files written under one-character names in a sub-directory
       [] r.k = "fmissing" -> VFile(inst, oname \o ".missing", fc)   \* names a file that was never written
       [] r.k = "flink" -> VFile(inst, oname \o ".lnk", fc)          \* a symbolic link to a file of the stage
       [] r.k = "flink2" -> VFile(inst, oname \o ".lnk2", fc)        \* a chain of relative links through sub-directories
